@@ -13,6 +13,7 @@ import (
 	"sort"
 	"strconv"
 	"strings"
+	"syscall"
 	"unsafe"
 )
 
@@ -344,4 +345,14 @@ func GC() {
 		}
 	}
 	runtime.GC()
+}
+
+// RestoreRX puts the given text pages back to read+execute (used by worlds after a fault
+// configuration, where an injected mprotect failure may legitimately leave a page RWX).
+//
+//go:nocheckptr
+func RestoreRX(pages []uintptr) {
+	for _, p := range pages {
+		syscall.Mprotect(unsafe.Slice((*byte)(unsafe.Pointer(p)), 4096), syscall.PROT_READ|syscall.PROT_EXEC)
+	}
 }
